@@ -115,6 +115,9 @@ BrowserTimers.vos BrowserTimers.vok BrowserTimers.required_vos: BrowserTimers.v 
 BrowserBacked.vo BrowserBacked.glob BrowserBacked.v.beautified BrowserBacked.required_vo: BrowserBacked.v Base.vo Fields.vo SrcFacts.vo Msg.vo SrcDecisions.vo Cache.vo CacheSpec.vo CacheProofs.vo Sim.vo Prober.vo Resolver.vo Browser.vo BrowserProofs.vo BrowserInv.vo
 BrowserBacked.vio: BrowserBacked.v Base.vio Fields.vio SrcFacts.vio Msg.vio SrcDecisions.vio Cache.vio CacheSpec.vio CacheProofs.vio Sim.vio Prober.vio Resolver.vio Browser.vio BrowserProofs.vio BrowserInv.vio
 BrowserBacked.vos BrowserBacked.vok BrowserBacked.required_vos: BrowserBacked.v Base.vos Fields.vos SrcFacts.vos Msg.vos SrcDecisions.vos Cache.vos CacheSpec.vos CacheProofs.vos Sim.vos Prober.vos Resolver.vos Browser.vos BrowserProofs.vos BrowserInv.vos
+BrowserSrv.vo BrowserSrv.glob BrowserSrv.v.beautified BrowserSrv.required_vo: BrowserSrv.v Base.vo Fields.vo SrcFacts.vo Msg.vo SrcDecisions.vo Cache.vo CacheSpec.vo CacheProofs.vo Sim.vo Prober.vo Resolver.vo Browser.vo BrowserProofs.vo BrowserInv.vo
+BrowserSrv.vio: BrowserSrv.v Base.vio Fields.vio SrcFacts.vio Msg.vio SrcDecisions.vio Cache.vio CacheSpec.vio CacheProofs.vio Sim.vio Prober.vio Resolver.vio Browser.vio BrowserProofs.vio BrowserInv.vio
+BrowserSrv.vos BrowserSrv.vok BrowserSrv.required_vos: BrowserSrv.v Base.vos Fields.vos SrcFacts.vos Msg.vos SrcDecisions.vos Cache.vos CacheSpec.vos CacheProofs.vos Sim.vos Prober.vos Resolver.vos Browser.vos BrowserProofs.vos BrowserInv.vos
 ProviderListener.vo ProviderListener.glob ProviderListener.v.beautified ProviderListener.required_vo: ProviderListener.v Base.vo Fields.vo SrcFacts.vo Msg.vo SrcDecisions.vo Cache.vo CacheSpec.vo CacheProofs.vo Sim.vo Prober.vo Hostname.vo HostnameInv.vo Provider.vo ProviderProofs.vo
 ProviderListener.vio: ProviderListener.v Base.vio Fields.vio SrcFacts.vio Msg.vio SrcDecisions.vio Cache.vio CacheSpec.vio CacheProofs.vio Sim.vio Prober.vio Hostname.vio HostnameInv.vio Provider.vio ProviderProofs.vio
 ProviderListener.vos ProviderListener.vok ProviderListener.required_vos: ProviderListener.v Base.vos Fields.vos SrcFacts.vos Msg.vos SrcDecisions.vos Cache.vos CacheSpec.vos CacheProofs.vos Sim.vos Prober.vos Hostname.vos HostnameInv.vos Provider.vos ProviderProofs.vos
@@ -148,9 +151,9 @@ Properties_C20.vos Properties_C20.vok Properties_C20.required_vos: Properties_C2
 Properties_C19.vo Properties_C19.glob Properties_C19.v.beautified Properties_C19.required_vo: Properties_C19.v Base.vo Fields.vo SrcFacts.vo Msg.vo SrcDecisions.vo Cache.vo Sim.vo SimProofs.vo Browser.vo BrowserSpec.vo BrowserProofs.vo BrowserInv.vo BrowserTimers.vo
 Properties_C19.vio: Properties_C19.v Base.vio Fields.vio SrcFacts.vio Msg.vio SrcDecisions.vio Cache.vio Sim.vio SimProofs.vio Browser.vio BrowserSpec.vio BrowserProofs.vio BrowserInv.vio BrowserTimers.vio
 Properties_C19.vos Properties_C19.vok Properties_C19.required_vos: Properties_C19.v Base.vos Fields.vos SrcFacts.vos Msg.vos SrcDecisions.vos Cache.vos Sim.vos SimProofs.vos Browser.vos BrowserSpec.vos BrowserProofs.vos BrowserInv.vos BrowserTimers.vos
-Properties_C15.vo Properties_C15.glob Properties_C15.v.beautified Properties_C15.required_vo: Properties_C15.v Base.vo Fields.vo SrcFacts.vo Msg.vo SrcDecisions.vo Cache.vo Sim.vo Browser.vo BrowserSpec.vo BrowserProofs.vo BrowserInv.vo BrowserBacked.vo
-Properties_C15.vio: Properties_C15.v Base.vio Fields.vio SrcFacts.vio Msg.vio SrcDecisions.vio Cache.vio Sim.vio Browser.vio BrowserSpec.vio BrowserProofs.vio BrowserInv.vio BrowserBacked.vio
-Properties_C15.vos Properties_C15.vok Properties_C15.required_vos: Properties_C15.v Base.vos Fields.vos SrcFacts.vos Msg.vos SrcDecisions.vos Cache.vos Sim.vos Browser.vos BrowserSpec.vos BrowserProofs.vos BrowserInv.vos BrowserBacked.vos
+Properties_C15.vo Properties_C15.glob Properties_C15.v.beautified Properties_C15.required_vo: Properties_C15.v Base.vo Fields.vo SrcFacts.vo Msg.vo SrcDecisions.vo Cache.vo Sim.vo SimProofs.vo Browser.vo BrowserSpec.vo BrowserProofs.vo BrowserInv.vo BrowserBacked.vo BrowserSrv.vo
+Properties_C15.vio: Properties_C15.v Base.vio Fields.vio SrcFacts.vio Msg.vio SrcDecisions.vio Cache.vio Sim.vio SimProofs.vio Browser.vio BrowserSpec.vio BrowserProofs.vio BrowserInv.vio BrowserBacked.vio BrowserSrv.vio
+Properties_C15.vos Properties_C15.vok Properties_C15.required_vos: Properties_C15.v Base.vos Fields.vos SrcFacts.vos Msg.vos SrcDecisions.vos Cache.vos Sim.vos SimProofs.vos Browser.vos BrowserSpec.vos BrowserProofs.vos BrowserInv.vos BrowserBacked.vos BrowserSrv.vos
 Properties_C14.vo Properties_C14.glob Properties_C14.v.beautified Properties_C14.required_vo: Properties_C14.v Base.vo Fields.vo SrcFacts.vo Msg.vo SrcDecisions.vo Cache.vo Sim.vo SimProofs.vo Browser.vo BrowserSpec.vo BrowserProofs.vo BrowserInv.vo
 Properties_C14.vio: Properties_C14.v Base.vio Fields.vio SrcFacts.vio Msg.vio SrcDecisions.vio Cache.vio Sim.vio SimProofs.vio Browser.vio BrowserSpec.vio BrowserProofs.vio BrowserInv.vio
 Properties_C14.vos Properties_C14.vok Properties_C14.required_vos: Properties_C14.v Base.vos Fields.vos SrcFacts.vos Msg.vos SrcDecisions.vos Cache.vos Sim.vos SimProofs.vos Browser.vos BrowserSpec.vos BrowserProofs.vos BrowserInv.vos
